@@ -205,6 +205,9 @@ func encodeResults(w io.Writer, runLogs []string, results RunResults,
 		if splitOutputs {
 			stateMap := make(map[string]interface{})
 			for i, state := range description.States {
+				if i >= stateArray.Len(0) {
+					break
+				}
 				singleState := stateArray.Get([]int{i})
 				stateMap[state] = owjs.JsonSafeValue(singleState)
 			}
